@@ -344,6 +344,12 @@ func (p *crashPoint) build(ds []dirtySector, keep []bool, old bool, zeroExtend b
 	}
 	for i, f := range p.wal {
 		name := f.name
+		if strings.HasSuffix(name, ".broken") {
+			// the backup copy Repair leaves beside a segment it truncated: its creation is durable like any
+			// other (a later recovery in the same directory finds it there)
+			img.wal[name] = imageOf(f, keptW[i], zeroExtend)
+			continue
+		}
 		if !isWalName(name) {
 			continue // *.tmp files prepared by the allocation goroutine are not part of the log
 		}
